@@ -23,6 +23,12 @@ CLAIMS = {
  "C06": ("Bounded symbolic verification of failure handling on the FULL composition: runtime exit after receiving the invocation gives the failure outcome with a JSON body naming Runtime.ExitError, an already delivered response is what the caller keeps, the generation is torn down before the answer and the next invocation recovers (also when it then stalls), for every schedule within the delay bound.",
          "Trusted as C01. Extension crashes, init/exit error reports and signal-vs-code are not yet instantiated in the check (partial claim).",
          TECH + "; FULL-stack harness"),
+ "C09": ("Bounded symbolic verification of the shutdown choreography on the ORCH composition: for 0-2 extensions whose behaviour is a symbolic choice among {subscribed+exits 0/1, subscribed+ignores, unsubscribed, failed to launch}, runtime {exits on TERM, ignores TERM}, trigger {timeout, failure reset, shutdown}: no extension => one KILL and no TERM; otherwise TERM before KILL and KILL only after 30% of the allowance; exactly one SHUTDOWN event with the reason per subscriber, KILL only at the deadline; unsubscribed killed without event; return only after every started process was reaped; every schedule within the delay bound.",
+         "Trusted: gosmt SSA semantics/intrinsics, fake supervisor contract, logical clock with concrete durations (2000 ms allowance). Already-exited / never-started runtime and the symbolic 30% arithmetic are outside.",
+         TECH + "; ORCH harness, behaviour choices as decision variables"),
+ "C15": ("Bounded symbolic verification of the lifecycle event trace: a recording EventsAPI in the real rapidContext plus a monitor over the ghost log, run at the end of the FULL/ORCH scenarios (healthy, init crash, inline-init crash after a timeout, init/error, timeout and runtime exit with an extension): one init-start first, at most one init-runtime-done, exactly one init-report per init with the same phase, exactly one invoke-start per dispatched invocation, at most one runtime-done after it, success statuses only if the step really succeeded, error statuses carry an error type.",
+         "Trusted as C01/C03; the monitor is harness code; restore events and exact error types are outside.",
+         TECH + "; trace monitor over FULL-stack scenarios"),
  "C10": ("Bounded symbolic verification: two callers race on the real rapidcore.Server.Invoke (all its goroutines) against a stub sandbox; every schedule within the delay bound, symbolic payloads; no panic obligation reachable, a refused caller gets ErrAlreadyReserved and no bytes, served callers get the right bodies, the next sequential invocation is served.",
          "Trusted: gosmt SSA semantics, contracts for sync/channels/select/context/time.After; stub sandbox; D<=2/3; timers at quiescence.",
          TECH + "; delay-bounded schedule exploration"),
